@@ -16,20 +16,17 @@ func init() {
 
 // i6Exceptions: arithmetic on full-range script integers that cannot change a result.
 var i6Exceptions = map[string]string{
-	"starlark.string_split: ADD":             "maxsplit+1 wraps to a negative count, which SplitN treats as 'no limit' - the same result as an unreachable huge limit",
 	"(starlark.rangeValue).Index: MUL":       "0 <= i < len, and len was computed so that start + i*step is an element between start and stop (sound whenever rangeLen did not overflow, which is the separate known finding)",
 	"(starlark.rangeValue).Index: ADD":       "same invariant as the multiplication: start + i*step is an element of the range",
 	"(starlark.rangeValue).Slice: MUL":       "start <= len: r.start + r.step*start is an element (or the end) of the range",
 	"(starlark.rangeValue).Slice: ADD":       "same invariant",
 	"(starlark.rangeValue).Slice: MUL #2":    "end <= len: r.start + r.step*end is an element (or the end) of the range",
 	"(starlark.rangeValue).Slice: ADD #2":    "same invariant",
-	"starlark.list_insert: ADD #2":           "index has been normalised to 0 <= index < len(list) by the two preceding tests, so index+1 <= len",
-	"starlark.list_pop: ADD #2":              "i has been checked to satisfy 0 <= i < n, so i+1 <= n",
 	"(starlark.rangeValue).contains: SUB":    "a wrapped delta cannot alias an in-range one: start+d is an element of the range, so start+d+-2^64 is not an int64; the later divisibility/range test therefore still answers correctly",
 }
 
 // i6Known: confirmed genuine overflow sites (also listed in known_findings.json).
-func ruleI6(c *Ctx)  { ruleI6In(c, "", 8) }
+func ruleI6(c *Ctx)  { ruleI6In(c, "", 5) }
 func ruleI6T(c *Ctx) { ruleI6In(c, modPath+"/lib/time", 1) }
 
 func ruleI6In(c *Ctx, onlyPkg string, floor int) {
@@ -97,6 +94,11 @@ func ruleI6In(c *Ctx, onlyPkg string, floor int) {
 			}
 			sx, sy := taint[b.X], taint[b.Y]
 			if sx == "" && sy == "" {
+				return
+			}
+			// only arithmetic whose (possibly wrapped) result becomes a script-visible number:
+			// index normalisation feeding a bounds check fails loudly and is not judged here
+			if !reachesNumberSink(b, map[ssa.Value]bool{}, 0) {
 				return
 			}
 			// bounded operands?
@@ -466,4 +468,54 @@ func i6Safe(b *ssa.BinOp, taint map[ssa.Value]string) string {
 		}
 	}
 	return ""
+}
+
+// reachesNumberSink: the value flows (through arithmetic, conversions, phis) into
+// MakeInt/MakeInt64/MakeUint*, a lib/time Duration/Time result, a field of
+// rangeValue, or the result of rangeLen.
+func reachesNumberSink(v ssa.Value, seen map[ssa.Value]bool, depth int) bool {
+	if seen[v] || depth > 8 {
+		return false
+	}
+	seen[v] = true
+	refs := v.Referrers()
+	if refs == nil {
+		return false
+	}
+	for _, r := range *refs {
+		switch x := r.(type) {
+		case *ssa.Call:
+			if cal := x.Call.StaticCallee(); cal != nil {
+				switch cal.Name() {
+				case "MakeInt", "MakeInt64", "MakeUint", "MakeUint64":
+					return true
+				case "rangeLen":
+					return true
+				}
+			}
+		case *ssa.Return:
+			fn := x.Parent()
+			if fn.Name() == "rangeLen" {
+				return true
+			}
+			if _, n := namedOf(v.Type()); n == "Duration" || n == "Time" {
+				return true
+			}
+		case *ssa.Store:
+			if fa, ok := x.Addr.(*ssa.FieldAddr); ok && x.Val == v {
+				if _, n := namedOf(fa.X.Type()); n == "rangeValue" {
+					return true
+				}
+			}
+		case *ssa.MakeInterface:
+			if _, n := namedOf(x.X.Type()); n == "Duration" || n == "Time" {
+				return true
+			}
+		case *ssa.BinOp, *ssa.Convert, *ssa.ChangeType, *ssa.Phi:
+			if reachesNumberSink(r.(ssa.Value), seen, depth+1) {
+				return true
+			}
+		}
+	}
+	return false
 }
